@@ -157,7 +157,8 @@ def is_err_term(prog, x):
     if x[0] == "aggr" and x[1] == "core::result::Result":
         return x[2] == "Err"
     if x[0] == "call":
-        return always_err_fn(prog, x[1])
+        # the early return of an inner `?` is the residual (an Err / None) converted to the function's return type
+        return x[1] == "core::ops::try_trait::FromResidual::from_residual" or always_err_fn(prog, x[1])
     return False
 
 
@@ -171,6 +172,14 @@ def mk_tryok(prog, r):
         live = [x for x in r[1] if not is_err_term(prog, x)]
         if live:
             return mk_phi([mk_tryok(prog, x) for x in live])
+    if r[0] == "call":
+        from . import combinators as cb
+        if cb.is_combinator(r):
+            cases = cb.reduce(prog, r)
+            if not (len(cases) == 1 and cases[0][1] == r):
+                live = [v for _, v in cases if not (v[0] == "aggr" and v[2] in ("Err", "None") and v[1] in (cb.OPTION, cb.RESULT))]
+                if live:
+                    return mk_phi([mk_tryok(prog, v) for v in live])
     return ("tryok", r)
 
 
@@ -309,7 +318,8 @@ class Prov:
     def project(self, t, e):
         k = e[0]
         if isinstance(t, tuple) and t and t[0] == "phi" and k in ("field", "downcast", "deref"):
-            return mk_phi([self.project(x, e) for x in t[1]])
+            live = [x for x in t[1] if not (k == "downcast" and self._impossible_downcast(x, e[1]))]
+            return mk_phi([self.project(x, e) for x in (live or t[1])])
         if k == "deref":
             if t[0] == "ref":
                 return t[1]
@@ -337,10 +347,18 @@ class Prov:
                     return base[1][int(name)]
                 except (ValueError, IndexError):
                     pass
+            if base[0] == "closure" and str(name).isdigit() and int(name) < len(base[2]):
+                return base[2][int(name)]       # a captured variable of a closure value
             return ("field", t, name)
         if k == "index":
             return ("index", t, ("local", e[1], None))
         return (k, t)
+
+    def _impossible_downcast(self, x, variant):
+        """reading x as `variant` cannot happen: x is a literal of another variant, or an always-Err value read as Ok"""
+        if x[0] == "aggr" and x[2] is not None and x[2] != variant:
+            return True
+        return variant in ("Ok", "Some", "Continue") and is_err_term(self.prog, x)
 
     def place_term(self, place, bb, idx):
         """value stored in `place` at the point (follows reaching definitions of the base local)"""
@@ -349,10 +367,19 @@ class Prov:
             t = self.project(t, e)
         return t
 
-    def lvalue_term(self, place, bb, idx):
+    def lvalue_term(self, place, bb, idx, _depth=0):
         """identity of the memory `place` denotes (for effect summaries)"""
         l = place["l"]
         proj = place["p"]
+        if proj and proj[0][0] == "deref" and not (1 <= l <= self.fn.arg_count) and not _depth:
+            # `*r` where r is a reference temp created in this function (`&mut x`, a reborrow, a moved copy of one - e.g. the
+            # parameter of an inlined helper): the memory is x itself
+            b = self._borrowed_lvalue({"k": "copy", "place": {"l": l, "p": []}}, bb, idx, 1)
+            if b[0] in ("local", "param", "field", "ret"):
+                t = b
+                for e in proj[1:]:
+                    t = self.project(t, e)
+                return t
         if proj and proj[0][0] == "deref":
             t = self.local_term(l, bb, idx)
         elif 1 <= l <= self.fn.arg_count:
@@ -360,10 +387,29 @@ class Prov:
         elif l == 0:
             t = ("ret",)
         else:
-            t = ("local", l, self.fn.local_name(l))
+            src = self._moved_from_param(l, bb, idx)
+            t = ("param", src) if src is not None else ("local", l, self.fn.local_name(l))
         for e in proj:
             t = self.project(t, e)
         return t
+
+    def _moved_from_param(self, l, bb, idx):
+        """index of the parameter whose value was MOVED into local l (through any chain of plain moves), else None: an
+        owned `self` handed to an inlined callee is still the same object"""
+        for _ in range(8):
+            ds = self.reaching(l, bb, idx)
+            if len(ds) != 1 or -1 in ds:
+                return None
+            _, dbb, didx, payload = self._defs[next(iter(ds))]
+            if didx == "term" or payload["k"] != "use" or payload["op"]["k"] != "move" or payload["op"]["place"]["p"]:
+                return None
+            l, bb, idx = payload["op"]["place"]["l"], dbb, didx
+            if 1 <= l <= self.fn.arg_count:
+                # the parameter itself must not have been reassigned before the move
+                if self.reaching(l, bb, idx) == frozenset([-1]):
+                    return l - 1
+                return None
+        return None
 
     def operand_term(self, op, bb, idx):
         k = op["k"]
@@ -481,14 +527,14 @@ class Prov:
         self._effects = out
         return out
 
-    def _borrowed_lvalue(self, op, bb):
+    def _borrowed_lvalue(self, op, bb, idx="term", _depth=0):
         """for an operand that is a `&mut` temp, recover the lvalue identity of what it borrows"""
-        if op["k"] not in ("copy", "move"):
+        if op["k"] not in ("copy", "move") or _depth > 8:
             return ("unknown",)
         place = op["place"]
         if place["p"]:
-            return self.lvalue_term(place, bb, "term")
-        ds = self.reaching(place["l"], bb, "term")
+            return self.lvalue_term(place, bb, idx)
+        ds = self.reaching(place["l"], bb, idx)
         outs = []
         for di in ds:
             if di == -1:
@@ -496,10 +542,16 @@ class Prov:
                 continue
             l, dbb, didx, payload = self._defs[di]
             if didx != "term" and payload["k"] in ("ref", "rawptr"):
-                outs.append(self.lvalue_term(payload["place"], dbb, didx))
+                pl = payload["place"]
+                if len(pl["p"]) == 1 and pl["p"][0][0] == "deref" and not (1 <= pl["l"] <= self.fn.arg_count):
+                    # `&mut *r`: a reborrow of what r borrows
+                    inner = self._borrowed_lvalue({"k": "copy", "place": {"l": pl["l"], "p": []}}, dbb, didx, _depth + 1)
+                    outs.append(inner if inner[0] in ("local", "param", "field", "ret") else self.lvalue_term(pl, dbb, didx, 1))
+                else:
+                    outs.append(self.lvalue_term(pl, dbb, didx, 1))
             elif didx != "term" and payload["k"] == "use" and payload["op"]["k"] in ("copy", "move"):
                 # reborrow through a copy of another reference temp
-                outs.append(self._borrowed_lvalue(payload["op"], dbb))
+                outs.append(self._borrowed_lvalue(payload["op"], dbb, didx, _depth + 1))
             else:
                 outs.append(("deref", self.def_term(di)))
         return mk_phi(outs)
